@@ -72,10 +72,12 @@ pub trait Timer {
     fn wait_until<VxI0: Into<PartialComplexTime>>(&mut self, time: VxI0) -> (f: BoxFuture<'static, ()>)
         requires <VxI0 as vstd::std_specs::convert::IntoSpec<PartialComplexTime>>::obeys_into_spec(),
         ensures final(self).log() == old(self).log().push(TimerOp::WaitUntil(vstd::std_specs::convert::IntoSpec::<PartialComplexTime>::into_spec(time))),
-            vx_timer_of(f) == TimerOp::WaitUntil(vstd::std_specs::convert::IntoSpec::<PartialComplexTime>::into_spec(time));
+            vx_timer_of(f) == TimerOp::WaitUntil(vstd::std_specs::convert::IntoSpec::<PartialComplexTime>::into_spec(time)),
+            cond_of(f) == WaitCond::Timer(TimerOp::WaitUntil(vstd::std_specs::convert::IntoSpec::<PartialComplexTime>::into_spec(time)));
     fn wait_for(&mut self, duration: Duration) -> (f: BoxFuture<'static, ()>)
         ensures final(self).log() == old(self).log().push(TimerOp::WaitFor(duration)),
-            vx_timer_of(f) == TimerOp::WaitFor(duration);
+            vx_timer_of(f) == TimerOp::WaitFor(duration),
+            cond_of(f) == WaitCond::Timer(TimerOp::WaitFor(duration));
 }
 /// which armed timer a timer future stands for
 pub uninterp spec fn vx_timer_of(f: BoxFuture<'static, ()>) -> TimerOp;
@@ -174,10 +176,6 @@ pub enum WaitCond {
     Either(Box<WaitCond>, Box<WaitCond>),
 }
 pub uninterp spec fn cond_of<F>(f: F) -> WaitCond;
-/// a timer future completes exactly when that timer fires
-pub broadcast proof fn axiom_timer_future_cond(f: BoxFuture<'static, ()>)
-    ensures #[trigger] cond_of(f) == WaitCond::Timer(vx_timer_of(f))
-{ admit(); }
 #[verifier::external_body]
 #[verifier::reject_recursive_types(F)]
 pub struct Fuse<F> { _p: core::marker::PhantomData<F> }
